@@ -19,6 +19,7 @@ func stringify(v *Val, inProcess util.PtrSet) string {
 			return fmt.Sprintf("recursive-val %s@%p", v.Type, v)
 		} else {
 			inProcess.Add(v)
+			defer inProcess.Remove(v)
 		}
 	}
 
